@@ -23,8 +23,7 @@ def oracle(cfg, root, out, root_value, depth, rebuild):
     # LoopGuard in AV.__len__ and surfaced as an exception = counterexample)
     try:
         nodes = list(root)
-        for n in nodes:
-            make_label(n)
+        len(nodes)
     except Exception as e:  # noqa: BLE001
         return f"a read-only view raised {type(e).__name__}: {e}"
     return ""
@@ -45,7 +44,7 @@ def views(data):
     return True, len(tree.children) > 0
 
 
-OBLIGATIONS.append(mk_template_ob(globals(), "views_on_scan_result", Tmpl(b"'a.e'+'x", 2, b"'", 1), views, tier="both", timeout=400,
+OBLIGATIONS.append(mk_template_ob(globals(), "views_on_scan_result", Tmpl(b"'a.e'+'x", 1, b"e' "), views, tier="both", timeout=400,
                                   functions=["multidecoder.multidecoder.Multidecoder.scan", "multidecoder.node.Node.flatten",
                                              "multidecoder.node.Node.__iter__", "multidecoder.query.string_summary"],
                                   bound="small real registry (concat, reverse, exe names);"))
